@@ -114,6 +114,8 @@ class Gen:
 
     def who(self):
         r = self.rng
+        if self.ticked and self.expiring and r.random() < 0.35:
+            return r.choice(self.expiring)       # an expired token keeps being presented
         return 0 if r.random() < 0.45 else r.randrange(self.nperm + (1 if r.random() < 0.05 else 0))
 
     def setup(self):
@@ -122,6 +124,10 @@ class Gen:
         for _ in range(r.randrange(1, 4)):
             exp = 1 if (self.allow_expiry and r.random() < 0.3) else 0
             self.perm(self.rand_scope(), exp)
+        if self.allow_expiry and r.random() < 0.3:
+            # a broad token that expires: blanket actions, everything, one whole branch
+            self.perm(r.choice(["read", "actuate", "provide", "create", ALL_SCOPE, "read:Vehicle", "read actuate",
+                                "read:* provide", "actuate:Vehicle create"]), 1)
         if r.random() < 0.3:
             self.perm("read:Vehicle bogus")      # invalid claim: principal index is not consumed
             self.nperm -= 1
@@ -1195,6 +1201,149 @@ def c19_check(d, o, ctx):
     return fails
 
 
+# ---------------------------------------------------------------- C07, the positive clauses
+def _c07_readable(P, p, path, ticked):
+    return P.can(p, "read", path, ticked)
+
+
+def _c07_open(s, d, k, paths, P, ticked, ack, ack_t):
+    """expected first message of a change subscription: the current state of what it can read"""
+    s.update(B=(d["buf"] or 0), pending=[], uncertain=False, may_end=False, closed=False, h=None)
+    ids = [i for (i, _m) in d["entries"]]
+    if len(set(ids)) != len(ids) or any(m & 3 == 0 for (_i, m) in d["entries"]):
+        s["uncertain"] = True
+        return
+    items, vals = {}, {}
+    for (i, m) in d["entries"]:
+        if i not in paths:
+            continue
+        c = _c07_readable(P, d["p"], paths[i], ticked)
+        if c is None:
+            s["uncertain"] = True
+            return
+        if c:
+            items[i] = m & 3
+            vals[i] = (ack.get(i) if m & 1 else "skip", ack_t.get(i, "unknown") if m & 2 else "skip")
+    s["pending"].append({"k": k, "items": items, "vals": vals, "snapshot": True})
+
+
+def _c07_expect(subs, chg, unc_ids, k, paths, P, ticked, ack, ack_t):
+    """one expected message per subscription a committed request concerns"""
+    for s in subs.values():
+        if "pending" not in s or s["uncertain"] or s["closed"]:
+            continue
+        if any(i in s["entries"] for i in unc_ids):
+            s["uncertain"] = True
+            continue
+        exp = 0 <= s["p"] < len(P.scopes) and P.scopes[s["p"]][1]
+        items, vals = {}, {}
+        hit = False
+        for i, m in chg.items():
+            w = m & s["entries"].get(i, 0) & 3
+            if not w or i not in paths:
+                continue
+            hit = True
+            if exp and ticked:
+                break
+            c = _c07_readable(P, s["p"], paths[i], ticked)
+            if c is None:
+                s["uncertain"] = True
+                break
+            if c:
+                items[i] = w
+                vals[i] = (ack.get(i) if w & 1 else "skip", ack_t.get(i, "unknown") if w & 2 else "skip")
+        if s["uncertain"]:
+            continue
+        if hit and exp and ticked:
+            # the notification finds the token expired: the subscription is removed
+            s["may_end"] = True
+            s["closed"] = True
+            continue
+        if items:
+            s["pending"].append({"k": k, "items": items, "vals": vals, "snapshot": False})
+
+
+def _c07_match(msg, e):
+    got = {n["id"]: n["mask"] & 3 for n in msg}
+    if len(got) != len(msg) or got != e["items"]:
+        return False
+    for n in msg:
+        for fld in ("dp", "target"):
+            x = n[fld]
+            if x and x != "cleared":
+                if e["snapshot"] and x[1] >= e["k"]:
+                    return False
+                if not e["snapshot"] and x[1] != e["k"]:
+                    return False
+    return True
+
+
+def _c07_recv(s, d, o, ticked, P):
+    """what one RECV hands over is a contiguous run of the committed changes still to be delivered
+    (tokio's broadcast ring only ever skips the oldest), ending at the newest when the reader drains,
+    and never skipping one of the newest buffer_size+1.  Messages without a timestamp (a cleared
+    target) can be ambiguous, so the set of possible read positions is tracked."""
+    fails = []
+    if "pending" not in s or s["uncertain"]:
+        return fails
+    h = d["h"]
+    status = o[-1]
+    msgs = [dec_message(ml) for ml in o[:-1]]
+    exp_all = s["pending"]
+    offs = s.setdefault("offs", {0})
+    drained = len(msgs) < d["k"]
+    shapes = [[(n["id"], n["mask"]) for n in m] for m in msgs]
+    keep = s["B"] + 1
+    nxt = {}
+    shape_ok = newest_bad = None
+    for off in sorted(offs):
+        pend = exp_all[off:]
+        if len(msgs) > len(pend):
+            continue
+        cands = [len(pend) - len(msgs)] if drained else range(0, len(pend) - len(msgs) + 1)
+        for a in cands:
+            if all(_c07_match(m, pend[a + j]) for j, m in enumerate(msgs)):
+                shape_ok = True
+                if a > max(0, len(pend) - keep):
+                    if newest_bad is None:
+                        newest_bad = (len(pend), a - max(0, len(pend) - keep))
+                    continue
+                nxt.setdefault(off + a + len(msgs), []).append(off + a)
+    if not nxt:
+        pend = exp_all[min(offs):]
+        if shape_ok and newest_bad:
+            fails.append("C07-newest: sub%d (buffer_size %d) had %d messages to read and lost %d of the newest %d" % (
+                h, s["B"], newest_bad[0], newest_bad[1], keep))
+        elif len(msgs) > len(pend):
+            fails.append("C07-order: sub%d received %d messages %s, only %d committed changes were still to be "
+                         "delivered" % (h, len(msgs), shapes[:4], len(pend)))
+        else:
+            fails.append("C07-order: sub%d received %s, which is not a run of the committed changes still to be "
+                         "delivered %s%s" % (h, shapes[:4], [(e["k"], sorted(e["items"].items())) for e in pend[-6:]],
+                                             " ending at the newest" if drained else ""))
+        s["uncertain"] = True
+        return fails
+    starts = sorted({a for l in nxt.values() for a in l})
+    if len(starts) == 1:
+        for j, msg in enumerate(msgs):
+            e = exp_all[starts[0] + j]
+            for n in msg:
+                vdp, vt = e["vals"][n["id"]]
+                if vdp in ("skip", None) or n["dp"] is None:
+                    continue
+                if e["snapshot"] and (not same_bits(n["dp"][0], vdp[0]) or n["dp"][1] != vdp[1]):
+                    fails.append("C07-snapshot: sub%d's first message carries %s@%d for id %d, the current value is "
+                                 "%s@%d" % (h, E.show_val(n["dp"][0]), n["dp"][1], n["id"], E.show_val(vdp[0]), vdp[1]))
+                if not e["snapshot"] and vdp[1] == e["k"] and not same_bits(n["dp"][0], vdp[0]):
+                    fails.append("C07-value: sub%d was sent %s for id %d, the committed value is %s" % (
+                        h, E.show_val(n["dp"][0]), n["id"], E.show_val(vdp[0])))
+    s["offs"] = set(nxt)
+    expired = ticked and 0 <= s["p"] < len(P.scopes) and P.scopes[s["p"]][1]
+    if len(status) >= 3 and status[2] == 1 and not (s["may_end"] or expired):
+        fails.append("C07-ended: the stream of sub%d ended without disconnect, token expiry or shutdown" % h)
+    return fails
+
+
 def monitor(lines, out, props):
     """property monitors over an implementation trace; `props` selects the clauses to evaluate.
     Returns a list of 'clause: text' strings."""
@@ -1283,6 +1432,7 @@ def monitor(lines, out, props):
                   nerr[i] = nerr.get(i, 0) + 1
               for u in d["ups"]:
                   nel[u["id"]] = nel.get(u["id"], 0) + 1
+              chg, unc_ids = {}, set()           # C07: id -> mask of fields this request changed
               for u in d["ups"]:
                   i = u["id"]
                   if nerr.get(i, 0) == nel[i]:
@@ -1291,12 +1441,19 @@ def monitor(lines, out, props):
                       # some but not all elements for this id were rejected: the response does not say which
                       ack[i] = None
                       ack_t[i] = "unknown"
+                      unc_ids.add(i)
                       continue
                   i = u["id"]
                   if i not in paths:
                       continue
                   if "dp" in u:
                       cont = meta[i]["ctype"] == 2
+                      if cont:
+                          chg[i] = chg.get(i, 0) | 1
+                      elif ack.get(i) is None:
+                          unc_ids.add(i)
+                      elif not ieee_value_eq(u["dp"], ack[i][0]):
+                          chg[i] = chg.get(i, 0) | 1
                       if ack.get(i) is None:
                           pass
                       elif (not cont) and ieee_value_eq(u["dp"], ack[i][0]) and u["dp"] != ack[i][0]:
@@ -1311,6 +1468,8 @@ def monitor(lines, out, props):
                           m = meta[i]
                           if V.in_domain(m["dtype"], m.get("min"), m.get("max"), m.get("allowed"), u["dp"], False) is False:
                               fails.append("C02-stored: %s accepted %s outside its domain" % (paths[i], E.show_val(u["dp"])))
+                  if u["flags"] & 6:
+                      chg[i] = chg.get(i, 0) | 2
                   if u["flags"] & 2:
                       if ack_t.get(i) != "unknown":
                           ack_t[i] = (u["target"], k)
@@ -1321,6 +1480,7 @@ def monitor(lines, out, props):
                           ack_t[i] = None
                       if P.can(d["p"], "actuate", paths[i], ticked) is False:
                           fails.append("C04-actuate: p%d cleared the target of %s without actuate permission" % (d["p"], paths[i]))
+              _c07_expect(subs, chg, unc_ids, k, paths, P, ticked, ack, ack_t)
           elif name == "GET":
               r = o[0]
               if r[0] == 0 and d["id"] in paths:
@@ -1335,8 +1495,19 @@ def monitor(lines, out, props):
           elif name == "SUB":
               if o[0][0] == 0:
                   subs[o[0][1]] = {"entries": dict(d["entries"]), "p": d["p"], "k": k, "msgs": 0}
+                  _c07_open(subs[o[0][1]], d, k, paths, P, ticked, ack, ack_t)
+          elif name == "SHUTDOWN":
+              for s_ in subs.values():
+                  s_["may_end"] = True
+                  s_["closed"] = True
+              new = []
+              for (h, ids, p, alive) in owners:
+                  new.append((h, ids, p, False))
+              owners = new
           elif name == "RECV":
               s = subs.get(d["h"])
+              if s is not None:
+                  fails += _c07_recv(s, d, o, ticked, P)
               for ml in o[:-1]:
                   msg = dec_message(ml)
                   if s is None:
@@ -1379,6 +1550,10 @@ def monitor(lines, out, props):
           elif name in ("ACTUATE", "BATCH"):
               pend = (k, d, o[0])
           elif name in ("CLEANUP", "SHUTDOWN"):
+              for s_ in subs.values():
+                  if ticked and 0 <= s_["p"] < len(P.scopes) and P.scopes[s_["p"]][1]:
+                      s_["may_end"] = True
+                      s_["closed"] = True
               # providers that are down/expired lose their claims; on shutdown everybody does
               new = []
               for (h, ids, p, alive) in owners:
